@@ -206,8 +206,10 @@ PROPS = {
         engine="histsim", profile="C12", builds=["dbg", "rwdi", "rel"], level="exploration",
         parts=[dict(engine="histsim", profile="C12", builds=["dbg", "rwdi", "rel"], weight=5.0),
                # moves of adapters that hold a pointer into themselves (deeply tracked allocators)
-               dict(engine="compsim", profile="C09D", builds=["dbg", "rwdi"], weight=0.6)],
-        quick_s=55, thorough_s=600,
+               dict(engine="compsim", profile="C09D", builds=["dbg", "rwdi"], weight=0.6),
+               # move assignment of adapter compositions (other knobs in the source)
+               dict(engine="compsim", profile="C12W", builds=["dbg"], weight=0.5)],
+        quick_s=60, thorough_s=600,
         technique="deterministic simulation: move / move-assign / swap inserted at drawn history positions, "
                   "C01+C05 oracles continued across the move, assertions on",
         text="Histories with move construction (into slots below/above/between the blocks), move "
